@@ -147,6 +147,16 @@ def run(chk, tier, scale=1.0):
                 chk.violation(Violation(p, rule, sig, text, wit))
     # when a verdict produced by the request timer is written, relative to the read of the server's withdrawal (system-call order under strace)
     wjobs = [dict(build=bplain, seed=chk.seed * 70 + k, how=["disconnect", "registered", "reannounce"][k % 3], wait=[1.9, 2.6][k % 2]) for k in range(6 if tier == "quick" else 36)]
+    import subprocess
+    try:
+        strace_ok = subprocess.run(["strace", "-qq", "-o", "/dev/null", "true"], stdout=subprocess.DEVNULL, stderr=subprocess.DEVNULL, timeout=20).returncode == 0
+    except Exception:
+        strace_ok = False
+    if not strace_ok:
+        # (where tracing is not permitted this sub-oracle observes nothing; said in the evidence, the rest of the check stands)
+        chk.count("write_order_runs_skipped_no_strace", len(wjobs))
+        chk.assumptions += ["strace could not trace a process here: the write-order oracle did not run"]
+        wjobs = []
     for r in vcommon.pmap(write_order_worker, wjobs):
         chk.add_case(r["hash"], r["nontrivial"])
         chk.merge_counts(r["stats"])
@@ -154,7 +164,8 @@ def run(chk, tier, scale=1.0):
             chk.inconc(w)
         for (p, rule, sig, text, wit) in r["viol"]:
             chk.violation(Violation(p, rule, sig, text, wit))
-    chk.require("write_order_judged", 2)
+    if strace_ok:
+        chk.require("write_order_judged", 2)
     # exhaustive orders of a 7-event script: two instances of one id, queries, replies, disconnect
     perms = list(itertools.permutations(range(len(SCRIPT))))
     if tier == "quick":
